@@ -9,16 +9,16 @@
 (* document (with leaf identities) and the route the runner must take.        *)
 EXTENDS JsonPrint, Json
 
-CONSTANTS MaxNodes, MaxArity, NKeys
+CONSTANTS MaxNodes, MaxArity, NKeys, MaxDocs
 
 GenPalette == << <<97>>, <<98>>, <<97, 97>>, <<>>, <<66>>, <<233>>, <<65535>>, <<128512>>, <<34, 92>>, <<97, 0>> >>
 Keys == {GenPalette[i] : i \in 1..NKeys}
 
-VARIABLES toks, pend, need, phase, o, nd
+VARIABLES toks, inner, top, need, phase, o, nd
 
-vars == <<toks, pend, need, phase, o, nd>>
+vars == <<toks, inner, top, need, phase, o, nd>>
 
-Init == /\ toks = <<>> /\ pend = 0 /\ need = 0 /\ phase = "lay" /\ nd = 0
+Init == /\ toks = <<>> /\ inner = 0 /\ top = 0 /\ need = 0 /\ phase = "lay" /\ nd = 0
         /\ o = [lay |-> 10, S |-> 0, a |-> 0, raw |-> 0, seq |-> 0, route |-> 0]
 
 (* the option vector is drawn field by field and the keys of an object one by *)
@@ -27,32 +27,36 @@ OptLay ==
   /\ phase = "lay"
   /\ \E x \in Lays : o' = [o EXCEPT !.lay = x]
   /\ phase' = "flags"
-  /\ UNCHANGED <<toks, pend, need, nd>>
+  /\ UNCHANGED <<toks, inner, top, need, nd>>
 
 OptFlags ==
   /\ phase = "flags"
   /\ \E s, a, q, r \in {0, 1} : o' = [o EXCEPT !.S = s, !.a = a, !.seq = q, !.route = r]
   /\ phase' = "raw"
-  /\ UNCHANGED <<toks, pend, need, nd>>
+  /\ UNCHANGED <<toks, inner, top, need, nd>>
 
 OptRaw ==
   /\ phase = "raw"
-  /\ \E x \in 0..3, n \in 1..2 :
-       /\ (x = 2 => n = 1)          \* -j output of several values is not self-delimiting
-       /\ o' = [o EXCEPT !.raw = x] /\ nd' = n /\ pend' = n
+  /\ \E x \in 0..3, n \in 1..MaxDocs :
+       o' = [o EXCEPT !.raw = x] /\ nd' = n /\ top' = n
   /\ phase' = "build"
-  /\ UNCHANGED <<toks, need>>
+  /\ UNCHANGED <<toks, inner, need>>
 
 Cap(room) == IF room < MaxArity THEN room ELSE MaxArity
 
 Tokens(room) ==
   {Tok("leaf", 0, <<>>)} \cup {Tok(k, n, <<>>) : k \in {"arr", "obj"}, n \in 0..Cap(room)}
 
+(* documents are generated one after the other (preorder): a token opens a    *)
+(* new document iff no subtree of the current one is pending.  Under -j       *)
+(* several printed values are only self-delimiting if they are containers.    *)
 Build ==
-  /\ phase = "build" /\ pend > 0 /\ need = 0
-  /\ \E tk \in Tokens(MaxNodes - Len(toks) - pend) :
+  /\ phase = "build" /\ inner + top > 0 /\ need = 0
+  /\ \E tk \in Tokens(MaxNodes - Len(toks) - inner - top) :
+       /\ (inner = 0 /\ o.raw = 2 /\ nd > 1 => tk.k # "leaf")
        /\ toks' = Append(toks, tk)
-       /\ pend' = pend - 1 + tk.n
+       /\ IF inner = 0 THEN top' = top - 1 /\ inner' = tk.n
+                       ELSE top' = top /\ inner' = inner - 1 + tk.n
        /\ need' = IF tk.k = "obj" THEN tk.n ELSE 0
   /\ UNCHANGED <<phase, o, nd>>
 
@@ -60,12 +64,12 @@ AddKey ==
   /\ phase = "build" /\ need > 0
   /\ \E k \in Keys : toks' = [toks EXCEPT ![Len(toks)].ks = Append(@, k)]
   /\ need' = need - 1
-  /\ UNCHANGED <<pend, phase, o, nd>>
+  /\ UNCHANGED <<inner, top, phase, o, nd>>
 
 Done ==
-  /\ phase = "build" /\ pend = 0 /\ need = 0
+  /\ phase = "build" /\ inner + top = 0 /\ need = 0
   /\ phase' = "done"
-  /\ UNCHANGED <<toks, pend, need, o, nd>>
+  /\ UNCHANGED <<toks, inner, top, need, o, nd>>
 
 Next == OptLay \/ OptFlags \/ OptRaw \/ Build \/ AddKey \/ Done
 
